@@ -526,6 +526,13 @@ def registered_check(ex, case):
             val = merged.get(f"{kb}@{nm_}", merged.get(kb)) if nm_ is not None else merged.get(kb)
             if isinstance(val, (int, float)) and float(val) not in regs:
                 return f"{type(p).__name__}: parameter {kb} = {val}, registered probabilities / rates are {regs}"
+        for k in pj.get('params', {}):
+            kb = k.split('@')[0]
+            if kb.split('.')[-1] not in ('pInfected', 'pAffected', 'pExposed'): continue
+            val = merged.get(f"{kb}@{nm_}", merged.get(kb)) if nm_ is not None else merged.get(kb)
+            init = [float(x) for x in p._compartments.values()]
+            if isinstance(val, (int, float)) and float(val) not in init:
+                return f"{type(p).__name__}: parameter {kb} = {val}, the initial compartment distribution is {init}"
     return None
 
 
@@ -687,7 +694,7 @@ def run_case(case):
             # locus size for per-element events, the probability itself for fixed-rate ones, in registration order
             want = []
             for q in self._process.allProcesses():
-                want += [(lkey(l), pr * len(l), fkey(f)) for (l, pr, f, nm) in q.perElementEventDistribution(t)]
+                want += [(lkey(l), pr * sum(1 for _ in l), fkey(f)) for (l, pr, f, nm) in q.perElementEventDistribution(t)]     # (size by counting)
             for q in self._process.allProcesses():
                 want += [(lkey(l), pr, fkey(f)) for (l, pr, f, nm) in q.fixedRateEventDistribution(t)]
             have = [(lkey(l), r, fkey(f)) for (l, r, f, nm) in tr]
